@@ -116,14 +116,20 @@ class GraphConfigImpl:
                 warnings.warn(f'Node {node_id} without node type.', stacklevel=1)
 
             else:
-                node_type = NodeType(node.node_type)
+                node_type = node.node_type
 
-            if node_type in node_types or node_type is None:
+            if node_type is None:
                 continue
 
-            node_types[node_type.value] = schema.NodeType(
-                name=node_type.value,
-                hex_bgr_color=node_colors.get(node_type.value),
+            # User-defined node types are plain strings that are not members of the NodeType enum
+            type_name = node_type.value if isinstance(node_type, NodeType) else str(node_type)
+
+            if type_name in node_types:
+                continue
+
+            node_types[type_name] = schema.NodeType(
+                name=type_name,
+                hex_bgr_color=node_colors.get(type_name),
             )
 
         return node_types
